@@ -24,7 +24,10 @@ LEVEL = "exploration"
 RULE = (
     "case = one real search; the returned specification, all its rules and their constituents, the "
     "pack, every strategy of the pack (created plainly and through a subscripted generic alias) and a "
-    "bijection built on the specification are serialised to JSON text and loaded back; equality both "
+    "bijection built on the specification are serialised to JSON text and loaded back (kind bij: a "
+    "bijection between two *different* specifications of a related pair, incl. classes of one side "
+    "matched with several classes of the other; matched pairs, child orders, index data and both maps "
+    "pointwise compared before/after); equality both "
     "ways plus behavioural comparison (terms/objects to N, equations, bijection maps). non-trivial = a "
     "specification with >= 4 rules incl. a lazily added empty rule or a non-plain rule form; "
     "distinct = case fingerprints"
@@ -38,6 +41,8 @@ FLOORS = {
     "quick": {"nontrivial": 250, "counters": {"json.specs_round_tripped": 350, "json.rules_round_tripped": 4000,
                                                "json.strategies_round_tripped": 2500,
                                                "json.bijections_round_tripped": 150,
+                                               "json.pair_bijections_round_tripped": 80,
+                                               "json.bijections_with_a_class_matched_twice": 4,
                                                "json.instantiation_pairs_compared": 300,
                                                "json.specs_with_empty_rule": 100},
               "seen": {"json.rule_form": 5}},
@@ -48,6 +53,7 @@ FLOORS = {
 CASE_TIMEOUT = {"quick": 60, "thorough": 120}
 SIZES = {"quick": 520, "thorough": 10000}
 FORM_CASES = {"quick": 300, "thorough": 6000}
+BIJ_CASES = {"quick": 200, "thorough": 4000}
 
 
 def shard_setup(tier):
@@ -75,6 +81,74 @@ def gen_cases(tier, seed):
         case.update(id=produced, N=N[tier])
         produced += 1
         yield case
+    # bijections between *different* specifications (the pairs of C12): classes of one side
+    # matched with several classes of the other, non-identity child orders, index data
+    from vdrive import c12
+
+    k = 0
+    for pc in c12.gen_cases(tier, f"{seed}/C18bij"):
+        if pc["kind"] in ("self", "reload", "unrelated", "near"):
+            continue
+        pc = dict(pc, kind_pair=pc["kind"], id=f"b{k}", N=N[tier])
+        pc["kind"], pc["pair_kind"] = "bij", pc["kind"]
+        yield pc
+        k += 1
+        if k >= BIJ_CASES[tier]:
+            break
+
+
+def run_bij(case):
+    """A bijection between two different specifications, serialised and loaded back."""
+    from comb_spec_searcher.isomorphism import Bijection
+    from vdrive import c12
+
+    cx = base.ctx()
+    pair = c12.build_pair(dict(case, kind=case["pair_kind"]))
+    if isinstance(pair, str):
+        return {"skip": pair}
+    s1, s2 = pair
+    for n in range(case["N"] + 1):
+        s1.get_terms(n)
+        s2.get_terms(n)
+    bij = Bijection.construct(s1, s2)
+    if bij is None:
+        return {"skip": "not isomorphic"}
+    data = rt(bij)
+    bij2 = Bijection.from_dict(data)
+    cx.count("json.bijections_round_tripped")
+    cx.count("json.pair_bijections_round_tripped")
+    order = bij._get_order  # pylint: disable=protected-access
+    partners = {}
+    for c1, c2 in order:
+        partners.setdefault(c1, set()).add(c2)
+    multi = any(len(v) >= 2 for v in partners.values())
+    if multi:
+        cx.count("json.bijections_with_a_class_matched_twice")
+    for name in ("_get_order", "_index_data"):
+        a, b = getattr(bij, name), getattr(bij2, name)
+        if set(a) != set(b):
+            cx.violation("C18:bijection-round-trip-loses-pairs",
+                         f"{name}: {len(a)} matched pairs of classes before, {len(b)} after the round trip; "
+                         f"missing {[repr(k) for k in set(a) - set(b)][:2]}", None)
+        if any(json.dumps(a[k], sort_keys=True, default=str) != json.dumps(b[k], sort_keys=True, default=str) for k in a):
+            cx.violation("C18:bijection-round-trip-changes-data", f"{name} differs for some matched pair", None)
+    moved = 0
+    try:
+        for n in range(min(case["N"], 6) + 1):
+            for w in rw.objects(case["c1"], n):
+                a, b = bij.map(words.W(w)), bij2.map(words.W(w))
+                cx.count("json.bijection_points_compared")
+                moved += str(a) != w
+                if str(a) != str(b):
+                    cx.violation("C18:bijection-round-trip-maps-differ", f"{w!r}: map {a!r} vs {b!r}", None)
+            for w in rw.objects(case["c2"], n):
+                ia, ib = bij.inverse_map(words.W(w)), bij2.inverse_map(words.W(w))
+                cx.count("json.bijection_points_compared")
+                if str(ia) != str(ib):
+                    cx.violation("C18:bijection-round-trip-maps-differ", f"{w!r}: inverse {ia!r} vs {ib!r}", None)
+    except NotImplementedError:
+        cx.count("json.bijection_maps_not_implemented")
+    return {"nontrivial": len(order) >= 4 and (multi or moved > 0), "fingerprint": fp(case)}
 
 
 def rt(obj):
@@ -173,6 +247,8 @@ def run_forms(case):
 def run_case(case):
     if case.get("kind") == "forms":
         return run_forms(case)
+    if case.get("kind") == "bij":
+        return run_bij(case)
     from comb_spec_searcher import CombinatorialSpecification
     from comb_spec_searcher.isomorphism import Bijection
     from comb_spec_searcher.strategies.strategy import AtomStrategy, EmptyStrategy
